@@ -56,10 +56,10 @@ func runSolver(s solverSpec, file string, timeoutS int) (status string, out stri
 }
 
 type dischargeOpts struct {
-	timeoutS  int
-	allAgree  bool // thorough: every solver that answers must agree
-	scratch   string
-	parallel  int
+	timeoutS int
+	allAgree bool // thorough: every solver that answers must agree
+	scratch  string
+	parallel int
 }
 
 // discharge decides one obligation.
